@@ -649,3 +649,321 @@ Proof.
 Qed.
 
 End Put.
+
+(* ================================================================== the step *)
+
+Lemma quiet_request_ghosts : forall c new r s x, In x (request_ghosts c new r s) -> quiet x.
+Proof.
+  intros c new r s x H. unfold request_ghosts in H.
+  apply in_app_or in H as [H|H]; [destruct (_ && _); [destruct H as [<-|[]]; exact I | destruct H]|].
+  apply in_app_or in H as [H|H]; [destruct (_ && _ && _); [destruct H as [<-|[]]; exact I | destruct H]|].
+  destruct (_ && _); [|destruct H]. destruct (get_node c (q_from r)); [|destruct H].
+  destruct (entries_eqb _ _); [destruct H|]. destruct H as [<-|[]]. exact I.
+Qed.
+
+Lemma LC_same : forall sz c c',
+  LC sz c -> c_nodes c' = c_nodes c -> c_hist c' = c_hist c -> (forall m, In m (c_net c') -> In m (c_net c)) -> LC sz c'.
+Proof.
+  intros sz c c' L N H M.
+  assert (GN : forall u, get_node c' u = get_node c u) by (intros; unfold get_node; rewrite N; reflexivity).
+  constructor; rewrite ?N, ?H; try apply L.
+  - intros T idx e u v x Cm Hg. rewrite GN in Hg. eapply (lc_c1 _ _ L); eauto.
+  - intros T idx e u v x Cm Hg. rewrite GN in Hg. eapply (lc_c2 _ _ L); eauto.
+  - intros T idx e u v Cm Hg. rewrite GN in Hg. eapply (lc_c4 _ _ L); eauto.
+  - intros T idx e Cm. destruct (lc_q _ _ L _ _ _ Cm) as [S [NS [QS HS]]]. exists S. split; auto. split; auto.
+    intros u Hu. destruct (HS _ Hu) as (Hlt & v & Hg & Hh & HT & Hv). split; auto. exists v. rewrite GN. repeat split; auto.
+    intros t cd Hs Ht w Hw. rewrite GN in Hw. eapply Hv; eauto.
+  - intros u t cd v Hs Hg. rewrite GN in Hg. eapply (lc_svt _ _ L); eauto.
+  - intros r v Hr Kr Hg. rewrite GN in Hg. eapply (lc_vr _ _ L); eauto.
+Qed.
+
+Lemma cl_false_cand : forall s, cl s = false -> is_candidate s = false.
+Proof. intros s H. unfold cl in H. apply orb_false_iff in H. tauto. Qed.
+
+Theorem LC_step : forall sz c e,
+  LI c -> J sz c -> K c -> LC sz c ->
+  election_safety (c_hist (step rr_fixed c e)) ->
+  ack_diverged_b (c_hist (step rr_fixed c e)) = false ->
+  old_term_commit_b (c_hist (step rr_fixed c e)) = false ->
+  nq_step c (step rr_fixed c e) = false ->
+  LC sz (step rr_fixed c e).
+Proof.
+  intros sz c e Lc Jc Kc Cc ES AD OT NQ.
+  pose proof (LI_step c e Lc ES AD) as Lc'.
+  pose proof (J_step rr_fixed sz c e Jc (or_introl eq_refl)) as Jc'.
+  pose proof (K_step rr_fixed c e eq_refl eq_refl Kc) as Kc'.
+  destruct (li_cinv _ Lc) as [HN HM].
+  unfold nq_step in NQ.
+  destruct e as [i el due | k el | k | k | i d]; cbn [step] in *.
+  - (* Tick *)
+    destruct (get_node c i) as [nd|] eqn:G; [|exact Cc].
+    pose proof (get_node_index _ _ _ HN G) as Ei.
+    pose proof (li_wf _ Lc _ _ G) as W.
+    pose proof (term_process nd el due) as Tm.
+    pose proof (keep_process nd el due) as Kp.
+    pose proof (process_keeps nd el due) as Pk.
+    pose proof (good_process nd el due (w_inv _ W)) as [I' St].
+    pose proof (reqs_process_kind nd el due) as RK.
+    destruct (process nd el due) as [nd' reqs]. cbn [fst snd c_hist c_nodes c_net] in *.
+    destruct St as (Hi & _ & Hs & _).
+    rewrite old_term_app in OT. apply orb_false_iff in OT as [_ OT].
+    apply (LC_put sz c i nd nd' _ []); auto.
+    + intros x [].
+    + unfold get_node in G. eapply nq_nodes_nth; eauto. unfold put_node. apply (nth_error_upd_nth_eq _ _ _ _ _ G).
+    + congruence.
+    + rewrite Hs. apply (j_size _ _ Jc). unfold get_node in G. eapply nth_error_In; eauto.
+    + lia.
+    + left. apply Kp.
+    + intros Cn. left. rewrite (Pk Cn). repeat split; auto. cbn [app]. rewrite supports_node_ghosts.
+      rewrite N.eqb_refl, andb_true_r. destruct (is_candidate (n_state nd)); reflexivity.
+    + intros Cn. left. cbn [app]. rewrite supports_node_ghosts, (cl_false_cand _ Cn). reflexivity.
+    + intros m Hm. apply in_app_or in Hm as [Hm|Hm]; [left; exact Hm|right].
+      apply in_map_iff in Hm as [q [<- Hq]]. intros r0 E K0. inversion E; subst r0.
+      destruct (RK _ Hq) as [(Kq & _)|Kq]; rewrite Kq in K0; discriminate.
+  - (* Deliver *)
+    destruct (nth_error (c_net c) k) as [[r | r s]|] eqn:Hk; [| |exact Cc].
+    + (* request *)
+      pose proof (HM _ (nth_error_In _ _ Hk)) as Hok. cbn in Hok.
+      pose proof (li_msg _ Lc _ (nth_error_In _ _ Hk)) as RW. cbn in RW.
+      destruct (get_node c (q_to r)) as [nd|] eqn:G.
+      2:{ eapply LC_same; eauto. cbn. intros m Hm. eapply In_remove_nth; eauto. }
+      pose proof (get_node_index _ _ _ HN G) as Ei.
+      assert (Hne : q_from r <> n_index nd) by congruence.
+      pose proof (li_wf _ Lc _ _ G) as W.
+      pose proof (good_request rr_fixed nd r el (w_inv _ W) Hne) as [I' St].
+      pose proof (request_keeps rr_fixed nd r el) as Kp.
+      pose proof (request_term rr_fixed nd r el) as (T1 & T2 & _).
+      pose proof (request_shape rr_fixed nd r el W RW Hne) as [W' Sh].
+      pose proof (lexle_request rr_fixed nd r el W RW Hne) as LX.
+      pose proof (vote_granted nd r el) as VG.
+      pose proof (request_no_vote rr_fixed nd r el) as NV.
+      destruct (handle_request rr_fixed nd r el) as [nd' s]. cbn [fst snd c_hist c_nodes c_net] in *.
+      destruct St as (Hi & _ & Hs & _).
+      assert (AD' : ack_diverged_b (request_ghosts c nd' r s) = false).
+      { rewrite ack_diverged_app in AD. apply orb_false_iff in AD as [_ AD].
+        rewrite ack_diverged_app in AD. apply orb_false_iff in AD as [AD _]. exact AD. }
+      rewrite old_term_app in OT. apply orb_false_iff in OT as [_ OT].
+      assert (NoC : supports (node_ghosts nd nd') = []).
+      { rewrite supports_node_ghosts.
+        destruct (is_candidate (n_state nd')) eqn:C; cbn [andb]; auto.
+        assert (E : nd' = nd) by (apply Kp; unfold cl; rewrite C; reflexivity). subst nd'.
+        rewrite C, N.eqb_refl. reflexivity. }
+      apply (LC_put sz c (q_to r) nd nd' _ (request_ghosts c nd' r s)); auto.
+      * apply quiet_request_ghosts.
+      * unfold get_node in G. eapply nq_nodes_nth; eauto. unfold put_node. apply (nth_error_upd_nth_eq _ _ _ _ _ G).
+      * congruence.
+      * rewrite Hs. apply (j_size _ _ Jc). unfold get_node in G. eapply nth_error_In; eauto.
+      * destruct Sh as [E|[A O]]; [left; exact E|].
+        destruct (cl (n_state nd')) eqn:Cn; [left; rewrite (Kp eq_refl); reflexivity|].
+        right; right. split; auto. split; auto.
+        assert (V : (N.to_nat (q_from r) < length (c_nodes c))%nat).
+        { eapply (li_lv _ Lc). apply (li_mh _ Lc); eauto. eapply nth_error_In; eauto. }
+        destruct (get_node c (q_from r)) as [sender|] eqn:Gs; [|unfold get_node in Gs; apply nth_error_None in Gs; lia].
+        exists (q_from r), sender. split; [congruence|]. split; auto.
+        eapply no_ack_diverged; eauto.
+      * intros Cn. left. rewrite (Kp Cn) in *. repeat split; auto.
+        rewrite supports_app, NoC, app_nil_r, supports_request_ghosts.
+        destruct (is_vote (q_kind r) && is_ok (s_result s)) eqn:V; auto.
+        destruct (T2 eq_refl) as [L E]. specialize (E eq_refl). lia.
+      * intros Cn. rewrite supports_app, NoC, app_nil_r, supports_request_ghosts.
+        destruct (is_vote (q_kind r) && is_ok (s_result s)) eqn:V; [|left; reflexivity].
+        right. pose proof (NV eq_refl) as Kr. exists r.
+        assert (O : is_ok (s_result s) = true) by (rewrite Kr in V; exact V).
+        destruct (VG Kr O) as (P1 & P2 & L0 & _ & T3 & T4).
+        split; [eapply nth_error_In; eauto|]. split; auto. split; [rewrite Hi, Ei; reflexivity|].
+        repeat split; auto.
+      * intros m Hm. apply in_app_or in Hm as [Hm|[<-|[]]]; [left; eapply In_remove_nth; eauto | right].
+        intros r0 E. discriminate.
+    + (* response *)
+      pose proof (HM _ (nth_error_In _ _ Hk)) as Hok. cbn in Hok. destruct Hok as [Hft Hto].
+      destruct (get_node c (s_to s)) as [nd|] eqn:G.
+      2:{ eapply LC_same; eauto. cbn. intros m Hm. eapply In_remove_nth; eauto. }
+      pose proof (get_node_index _ _ _ HN G) as Ei.
+      assert (Hne : q_to r <> n_index nd) by congruence.
+      pose proof (li_wf _ Lc _ _ G) as W.
+      pose proof (good_response rr_fixed nd r s (w_inv _ W) Hne) as [I' St].
+      pose proof (response_term rr_fixed nd r s eq_refl) as T1.
+      pose proof (keep_response rr_fixed nd r s (w_inv _ W) Hne) as Kp.
+      pose proof (response_cl nd r s) as RC.
+      pose proof (reqs_response rr_fixed nd r s Hne) as RO.
+      pose proof (response_vote_reqs rr_fixed nd r s) as RV.
+      destruct (handle_response rr_fixed nd r s) as [nd' reqs]. cbn [fst snd c_hist c_nodes c_net] in *.
+      destruct St as (Hi & _ & Hs & _).
+      rewrite (response_ghosts_fixed rr_fixed nd r s eq_refl) in *.
+      rewrite old_term_app in OT. apply orb_false_iff in OT as [_ OT].
+      apply (LC_put sz c (s_to s) nd nd' _ []); auto.
+      * intros x [].
+      * unfold get_node in G. eapply nq_nodes_nth; eauto. unfold put_node. apply (nth_error_upd_nth_eq _ _ _ _ _ G).
+      * congruence.
+      * rewrite Hs. apply (j_size _ _ Jc). unfold get_node in G. eapply nth_error_In; eauto.
+      * left. apply Kp.
+      * intros Cn. cbn [app]. rewrite supports_node_ghosts.
+        destruct (RC Cn) as [(S0 & T0)|[(S0 & L0 & T0)|(S0 & T0)]].
+        -- left. repeat split; auto. rewrite S0, T0, N.eqb_refl, andb_true_r.
+           destruct (is_candidate (n_state nd)); reflexivity.
+        -- right; left. repeat split; auto; [|apply Kp].
+           destruct (n_state nd'); try discriminate. reflexivity.
+        -- right; right. repeat split; auto; [apply Kp|].
+           rewrite S0, T0. cbn [is_candidate andb].
+           replace (n_term nd =? n_term nd + 1) with false by (symmetry; apply N.eqb_neq; lia).
+           rewrite andb_false_r. cbn. rewrite Hi, Ei. reflexivity.
+      * intros Cn. left. cbn [app]. rewrite supports_node_ghosts, (cl_false_cand _ Cn). reflexivity.
+      * intros m Hm. apply in_app_or in Hm as [Hm|Hm]; [left; eapply In_remove_nth; eauto | right].
+        apply in_map_iff in Hm as [q [<- Hq]]. intros r0 E K0. inversion E; subst r0.
+        destruct (RO _ Hq) as [Fq _]. destruct (RV q Hq K0) as (A & B & C0 & D). repeat split; auto. congruence.
+  - (* Drop *)
+    eapply LC_same; eauto. cbn. intros m Hm. eapply In_remove_nth; eauto.
+  - (* Duplicate *)
+    destruct (nth_error (c_net c) k) as [m0|] eqn:Hk; [|exact Cc].
+    eapply LC_same; eauto. cbn. intros m Hm. apply in_app_or in Hm as [Hm|[<-|[]]]; auto. eapply nth_error_In; eauto.
+  - (* ClientAppend *)
+    destruct (get_node c i) as [nd|] eqn:G; [|exact Cc].
+    destruct (is_leader (n_state nd)) eqn:L; [|exact Cc].
+    pose proof (get_node_index _ _ _ HN G) as Ei.
+    pose proof (li_wf _ Lc _ _ G) as W.
+    pose proof (term_append nd d) as Tm.
+    pose proof (append_state nd d) as As.
+    pose proof (commit_append nd d (ni_size _ (w_inv _ W))) as Ca.
+    pose proof (good_append nd d (w_inv _ W)) as [I' St].
+    pose proof (append_shape nd d W) as (W' & El & RK).
+    destruct (append nd d) as [nd' reqs]. cbn [fst snd c_hist c_nodes c_net] in *.
+    destruct St as (Hi & _ & Hs & _).
+    rewrite old_term_app in OT. apply orb_false_iff in OT as [_ OT].
+    assert (Cn : cl (n_state nd') = true) by (unfold cl; rewrite As, L; apply orb_true_r).
+    apply (LC_put sz c i nd nd' _ []); auto.
+    + intros x [].
+    + unfold get_node in G. eapply nq_nodes_nth; eauto. unfold put_node. apply (nth_error_upd_nth_eq _ _ _ _ _ G).
+    + congruence.
+    + rewrite Hs. apply (j_size _ _ Jc). unfold get_node in G. eapply nth_error_In; eauto.
+    + lia.
+    + right; left. repeat split; auto. exists d. exact El.
+    + intros _. left. repeat split; auto. cbn [app]. rewrite supports_node_ghosts, As.
+      destruct (n_state nd); try discriminate. reflexivity.
+    + intros F. congruence.
+    + intros m Hm. apply in_app_or in Hm as [Hm|Hm]; [left; exact Hm|right].
+      apply in_map_iff in Hm as [q [<- Hq]]. intros r0 E K0. inversion E; subst r0.
+      destruct (RK _ Hq) as [Kq _]. rewrite Kq in K0. discriminate.
+Qed.
+
+(* ================================================================== all histories *)
+
+Lemma init_LC : forall size, size <> 1 -> LC size (init_default size).
+Proof.
+  intros size Hs.
+  assert (Hh : c_hist (init_default size) = []).
+  { unfold init_default, init. cbn [c_hist]. apply N.eqb_neq in Hs. rewrite Hs. reflexivity. }
+  assert (NC : forall T idx e, ~ committed (c_hist (init_default size)) T idx e).
+  { intros T idx e [j H]. rewrite Hh in H. destruct H. }
+  constructor; try (intros T idx e; intros; exfalso; eapply NC; eauto; fail).
+  - unfold init_default, init. cbn [c_nodes]. rewrite map_length, seq_length. reflexivity.
+  - intros j T idx e H. rewrite Hh in H. destruct H.
+  - intros u t cd nd H. rewrite Hh in H. destruct H.
+  - intros r nd H. cbn in H. destruct H.
+  - intros h1 h2 j t idx e j' t' log E. rewrite Hh in E. destruct h1; discriminate.
+Qed.
+
+Record hyps (size : N) (evs : list event) : Prop := {
+  h_ad : ack_diverged_b (c_hist (run rr_fixed size evs)) = false;
+  h_ot : old_term_commit_b (c_hist (run rr_fixed size evs)) = false;
+  h_nq : commit_noquorum_b rr_fixed size evs = false }.
+
+Lemma hyps_prefix : forall size evs e, hyps size (evs ++ [e]) ->
+  hyps size evs /\ nq_step (run rr_fixed size evs) (step rr_fixed (run rr_fixed size evs) e) = false.
+Proof.
+  intros size evs e [A O Q]. rewrite fold_run_app in A, O. unfold run_from in A, O. cbn [fold_left] in A, O.
+  destruct (step_hist rr_fixed (run rr_fixed size evs) e) as [g Hg]. rewrite Hg in A, O.
+  rewrite ack_diverged_app in A. rewrite old_term_app in O.
+  apply orb_false_iff in A as [A _]. apply orb_false_iff in O as [O _].
+  unfold commit_noquorum_b in Q. rewrite noquorum_snoc in Q. apply orb_false_iff in Q as [Q1 Q2].
+  split; [constructor; auto|exact Q2].
+Qed.
+
+Theorem LC_run : forall size evs, size <> 1 -> hyps size evs -> LC size (run rr_fixed size evs).
+Proof.
+  intros size evs Hs. induction evs as [|e evs IH] using rev_ind; intros H.
+  - apply init_LC; auto.
+  - destruct (hyps_prefix _ _ _ H) as [Hp NQ]. specialize (IH Hp).
+    pose proof (election_safety_fixed size (evs ++ [e])) as ES.
+    pose proof (LI_run size evs Hs (h_ad _ _ Hp)) as Li.
+    pose proof (run_J rr_fixed evs size _ (init_J size Hs) (or_introl eq_refl)) as Jr.
+    pose proof (run_K rr_fixed evs _ eq_refl eq_refl (init_K size Hs)) as Kr.
+    destruct H as [A O _].
+    rewrite fold_run_app in *. unfold run_from in ES, A, O |- *. cbn [fold_left] in *.
+    apply LC_step; auto.
+Qed.
+
+(* ================================================================== C29 *)
+
+(* LEADER COMPLETENESS (Raft's statement): an entry committed by a leader of term t is in the log of every node that
+   becomes leader LATER FOR A HIGHER TERM *)
+Theorem leader_completeness_up_partial : forall size evs,
+  size <> 1 -> hyps size evs -> leader_completeness_up (c_hist (run rr_fixed size evs)).
+Proof. intros size evs Hs H. apply (lc_h _ _ (LC_run size evs Hs H)). Qed.
+
+(* a node that becomes Leader, after a leader's commit in term t, for a term <= t (a stale candidate that collects
+   delayed votes of an old election): not a defect — it cannot commit anything — but the literal statement
+   `leader_completeness` quantifies over it *)
+Fixpoint late_leader_b (h : list ghost) : bool :=
+  match h with
+  | [] => false
+  | GCommit _ true t _ _ :: rest =>
+      existsb (fun g => match g with GLeader _ t' _ => t' <=? t | _ => false end) rest || late_leader_b rest
+  | _ :: rest => late_leader_b rest
+  end.
+
+Lemma late_leader_found : forall h1 i t idx e h2 j t' log,
+  In (GLeader j t' log) h2 -> t' <= t -> late_leader_b (h1 ++ GCommit i true t idx e :: h2) = true.
+Proof.
+  induction h1 as [|x h1 IH]; intros i t idx e h2 j t' log Hin Hle.
+  - cbn [app late_leader_b]. apply orb_true_iff. left. apply existsb_exists. eexists; split; [exact Hin|].
+    apply N.leb_le. exact Hle.
+  - cbn [app]. specialize (IH i t idx e h2 j t' log Hin Hle).
+    destruct x as [| | | ? [|] ? ? ? | | |]; cbn [late_leader_b]; auto. rewrite IH. apply orb_true_r.
+Qed.
+
+Lemma completeness_of_up : forall h, leader_completeness_up h -> late_leader_b h = false -> leader_completeness h.
+Proof.
+  intros h U L h1 h2 i t idx e j t' log E Hin. destruct (N.lt_ge_cases t t') as [H|H].
+  - eapply U; eauto.
+  - exfalso. rewrite E in L. rewrite (late_leader_found h1 i t idx e h2 j t' log Hin H) in L. discriminate.
+Qed.
+
+(* C29 in its literal form, with the benign late-leader case excluded by hypothesis *)
+Theorem leader_completeness_partial : forall size evs,
+  size <> 1 -> hyps size evs -> late_leader_b (c_hist (run rr_fixed size evs)) = false ->
+  leader_completeness (c_hist (run rr_fixed size evs)).
+Proof.
+  intros size evs Hs H L. apply completeness_of_up; auto. apply leader_completeness_up_partial; auto.
+Qed.
+
+(* the late-leader case is real (3 nodes, 26 events): node 1 collects the delayed vote of its election of term 1
+   after node 0, leader of term 2, has committed; none of the six classes occurs.  So the literal statement of C29
+   fails in a history that is fine for Raft: the statement has to speak about leaders of HIGHER terms. *)
+Definition wlate : list event :=
+  [ Tick 1 1000 []; Deliver 1%nat 0; Deliver 1%nat 0; Drop 0%nat; Drop 0%nat; Deliver 0%nat 0;
+    Tick 0 0 []; Deliver 2%nat 0; Deliver 2%nat 0; Drop 1%nat; Drop 1%nat; Drop 1%nat;
+    Tick 0 3001 []; Tick 0 0 []; Deliver 2%nat 0; Deliver 2%nat 0; Deliver 3%nat 0; Deliver 3%nat 0;
+    Drop 1%nat; Drop 1%nat; Drop 1%nat; Drop 1%nat; ClientAppend 0 21; Deliver 2%nat 0;
+    Deliver 2%nat 0; Deliver 0%nat 0 ].
+
+Lemma wlate_facts :
+  let h := c_hist (run rr_fixed 3 wlate) in
+  leader_completeness_b h = false /\ election_safety_b h = true /\
+  classes h = (false, false, false, false, false) /\ commit_noquorum_b rr_fixed 3 wlate = false /\
+  late_leader_b h = true /\ leaders h = [(0, 2); (1, 1)].
+Proof. vm_compute. repeat split; reflexivity. Qed.
+
+Lemma late_leader_refutes_literal_C29 :
+  exists size evs, size <> 1 /\ hyps size evs /\ ~ leader_completeness (c_hist (run rr_fixed size evs)).
+Proof.
+  exists 3, wlate. destruct wlate_facts as (F & _ & C & Q & _). cbv zeta in *. unfold classes in C.
+  split; [discriminate|]. split.
+  - constructor; auto; congruence.
+  - intros H. apply leader_completeness_b_sound in H. congruence.
+Qed.
+
+(* non-vacuity: the fault-free history of RaftLogMatch satisfies all hypotheses *)
+Lemma wlog_ok_hyps : hyps 3 wlog_ok /\ late_leader_b (c_hist (run rr_fixed 3 wlog_ok)) = false /\
+  leader_completeness_b (c_hist (run rr_fixed 3 wlog_ok)) = true /\
+  existsb (fun g => match g with GCommit _ true _ _ _ => true | _ => false end) (c_hist (run rr_fixed 3 wlog_ok)) = true.
+Proof. split; [constructor|]; vm_compute; auto. Qed.
